@@ -117,6 +117,27 @@ class StrMapV:
         return "StrMapV(%s)" % "".join("%s>%s " % kv for kv in sorted(self.table.items()))
 
 
+class AStr:
+    """an unknown string, tracked by the expression that produced it"""
+
+    def __init__(self, tag):
+        self.tag = tag
+
+    def __repr__(self):
+        return "AStr(%s)" % self.tag
+
+    def __eq__(self, o):
+        return isinstance(o, AStr) and o.tag == self.tag
+
+    def __hash__(self):
+        return hash(self.tag)
+
+
+class AChar:
+    def __init__(self, tag):
+        self.tag = tag
+
+
 class ListAcc:
     """a list being built by append in an element loop"""
 
@@ -201,6 +222,8 @@ class Evaluator:
         self.wsums = []                    # registry of window sums / pair sums: dicts
         self.terms = []                    # registry of opaque per-residue terms (Rat)
         self.int_atoms = set()             # atoms known to be non-negative integers (parity analysis)
+        self.universe = LETTERS            # characters an element of the sequence string may be
+        self.last_loop = None              # summary of the most recent element loop (raises per character)
         self.opaque_calls = {}             # FuncInfo.key -> atom name (do not inline)
         self.trace = []                    # loop summaries for evidence
         self.self_cls = self_cls
@@ -493,7 +516,7 @@ class Evaluator:
         dictincs = {}      # name -> {letter: {key: Rat}}
         raises = {}        # letter -> exception name
         flags = set()
-        for L in (LETTERS if base.kind == "seq" else ["*"]):
+        for L in (self.universe if base.kind == "seq" else ["*"]):
             env = dict(pre)
             marks = {}
             for name in assigned:
@@ -593,6 +616,7 @@ class Evaluator:
         summary = {"loop": fr.f.loc(s), "kind": "element", "domain": [repr(lo), repr(hi)],
                    "accumulators": sorted(incs), "lists": sorted(appends), "raises": dict(raises)}
         self.trace.append(summary)
+        self.last_loop = summary
         conds = list(p.conds)
         if raises:
             # the loop completes only when no such letter occurs
@@ -635,7 +659,9 @@ class Evaluator:
                 table[L] = Fraction(0)
             env[name] = SeqV("map", self.elkey_for(table))
         for name, per in strapp.items():
-            env[name] = ("strmap", dict(per), pre[name], dict(raises))
+            if pre[name] != "" or not full:
+                raise Undecided("string accumulator %s with a prefix or a partial domain" % name, fr.f.loc(s))
+            env[name] = StrMapV(per)
         out = [Path(conds, "live", None, env)]
         if raises:
             out.append(Path(list(p.conds) + [("opaque", "some residue in %s" % sorted(raises))],
@@ -815,6 +841,14 @@ class Evaluator:
         if name in ("In", "NotIn"):
             if isinstance(b, ListAcc):
                 b = list(b.items)
+            if isinstance(a, str) and isinstance(b, AStr):
+                c = ("opaque", "%r in %s" % (a, b.tag))
+                return c if name == "In" else c_not(c)
+            if isinstance(a, str) and len(a) == 1 and isinstance(b, SeqV) and b.kind == "seq":
+                if a in self.universe:
+                    c = ("cmp", Rat.atom("cnt[%s]" % a), ">=", Rat.const(1))
+                    return c if name == "In" else c_not(c)
+                return name != "In"
             if isinstance(a, str) and isinstance(b, (str, list, tuple, set, frozenset, dict)):
                 r = a in b
                 return r if name == "In" else not r
@@ -825,6 +859,9 @@ class Evaluator:
         sym = {"Eq": "==", "NotEq": "!=", "Lt": "<", "LtE": "<=", "Gt": ">", "GtE": ">="}.get(name)
         if sym is None:
             raise Undecided("comparison operator %s" % name, fr.f.loc(node))
+        if isinstance(a, AChar) and isinstance(b, str) and sym in ("==", "!="):
+            c = ("opaque", "%s==%r" % (a.tag, b))
+            return c if sym == "==" else c_not(c)
         if isinstance(a, (str, type(None), bool)) and not isinstance(a, Rat) \
                 and isinstance(b, (str, type(None), bool)):
             if sym == "==":
@@ -993,6 +1030,11 @@ class Evaluator:
                 return base[a:b]
             raise Undecided("slice of %r" % (base,), fr.f.loc(node))
         idx = self.eval(sl, env, fr)
+        if isinstance(base, AStr):
+            i = _as_rat(idx)
+            if i is not None and i.is_const():
+                return AChar("%s[%d]" % (base.tag, int(i.const_value())))
+            raise Undecided("symbolic index into an unknown string", fr.f.loc(node))
         if isinstance(base, WhereV):
             if isinstance(idx, Rat) and idx.is_const() and idx.const_value() == 0:
                 return IdxV(base.mask)
@@ -1010,6 +1052,8 @@ class Evaluator:
                 if i is not None and i.equals(Rat.atom(fr.elem[1])):
                     return fr.elem[0]
             i = _as_rat(idx)
+            if i is not None and base.kind == "seq" and i.is_const():
+                return AChar("seq[%d]" % int(i.const_value()))
             if i is not None:
                 return fatom("el:" + base.key(), i)
             raise Undecided("sequence element at %s" % unparse(sl), fr.f.loc(node))
@@ -1047,6 +1091,16 @@ class Evaluator:
             if isinstance(a, _StrAcc) and isinstance(b, str):
                 return _StrAcc(a.s + b)
             if isinstance(a, str) and isinstance(b, str):
+                return a + b
+            if isinstance(a, (AStr, str)) and isinstance(b, (AStr, str)):
+                ta = a.tag if isinstance(a, AStr) else repr(a)
+                tb = b.tag if isinstance(b, AStr) else repr(b)
+                if a == "":
+                    return b
+                if b == "":
+                    return a
+                return AStr("(%s + %s)" % (ta, tb))
+            if isinstance(a, (list, tuple)) and isinstance(b, (list, tuple)) and type(a) is type(b):
                 return a + b
         ra, rb = _as_rat(a), _as_rat(b)
         if ra is None or rb is None:
@@ -1126,6 +1180,19 @@ class Evaluator:
                 if isinstance(base, str) and isinstance(a, (list, tuple)) and all(isinstance(x, str) for x in a):
                     return base.join(a)
                 raise Undecided("join of %r" % (a,), fr.f.loc(node))
+            if fn.attr in ("strip", "upper", "lower") and not args:
+                base0 = None
+                try:
+                    base0 = self.eval(fn.value, env, fr)
+                except Undecided:
+                    base0 = None
+                if isinstance(base0, AStr):
+                    return AStr("%s.%s()" % (base0.tag, fn.attr))
+            if fn.attr in ("isdigit", "isalpha", "islower", "isupper", "isalnum", "strip") and not args:
+                base = self.eval(fn.value, env, fr)
+                if isinstance(base, str):
+                    return getattr(base, fn.attr)()
+                raise Undecided("method %s on %r" % (fn.attr, base), fr.f.loc(node))
             if fn.attr in ("keys", "upper", "lower", "count", "values", "items", "isspace"):
                 base = self.eval(fn.value, env, fr)
                 if fn.attr == "keys" and isinstance(base, dict):
@@ -1136,7 +1203,7 @@ class Evaluator:
                     return getattr(base, fn.attr)()
                 if fn.attr == "count" and isinstance(base, SeqV) and base.kind == "seq" and len(args) == 1:
                     a = self.eval(args[0], env, fr)
-                    if isinstance(a, str) and len(a) == 1 and a in LETTERS:
+                    if isinstance(a, str) and len(a) == 1 and a in self.universe:
                         return Rat.atom("cnt[%s]" % a)
                     if isinstance(a, str) and len(a) == 1:
                         return Rat.const(0)
@@ -1244,6 +1311,8 @@ class Evaluator:
                 return self.count_atom(a.mask, fr, node)
             if isinstance(a, (str, list, tuple, dict, set)):
                 return Rat.const(len(a))
+            if isinstance(a, AStr):
+                return Rat.atom("len(%s)" % a.tag)
             if isinstance(a, ListAcc):
                 return Rat.const(len(a.items))
         if name in ("list", "tuple", "sorted") and len(args) == 1:
